@@ -2,6 +2,7 @@ import TomlVerif.Model.DeRoutes
 import TomlVerif.Model.Doc
 import TomlVerif.Model.DeText
 import TomlVerif.Driver.Canon
+import TomlVerif.Driver.C13Typed
 /-! Driver modes `c13` and `c17` (same case lines as harness/src/c13.rs).
 Fields the model does not cover are answered `n/a` (typed targets, `val` cases, texts of trees holding floats). -/
 namespace TomlVerif.Driver
@@ -280,6 +281,9 @@ def c13 (line : String) : String :=
   | ["tval", fl, t] => C13.tval13 fl t
   | ["val", _, _] => "n/a"
   | ["dispatch"] => C13.dispatch13
+  | ["typed", fl, ty, hx] => C13Typed.typed fl ty hx false
+  | ["typedv", fl, ty, hx] => C13Typed.typed fl ty hx true
+  | ["tcheck", fl, target, ty, hx] => C13Typed.tcheck fl target ty hx
   | _ => "bad-op"
 
 def c17 (line : String) : String := C13.c17 line
